@@ -26,8 +26,8 @@ pub fn plans(prop: &str, tier: &str) -> Vec<Plan> {
         // quick: bounds sized so that every scenario ends within seconds (they run in parallel)
         ("C23", false) => vec![pl("S1", 4, 1, 0), pl("S2", 4, 1, 0), pl("S3", 3, 2, 0), pl("S3b", 3, 2, 0), pl("S4", 2, 1, 0), pl("S6", 1, 0, 0), pl("S7", 1, 1, 0), pl("S11", 4, 2, 0), pl("S12", 4, 2, 0), pl("S14", 3, 2, 0), pl("S15", 1, 1, 0)],
         ("C23", true) => vec![pl("S1", 10, 1, 0), pl("S2", 8, 1, 20), pl("S3", 5, 2, 30), pl("S3b", 5, 3, 30), pl("S4", 3, 1, 40), pl("S6", 2, 0, 60), pl("S7", 2, 1, 60), pl("S11", 6, 2, 30), pl("S12", 6, 2, 30), pl("S14", 5, 2, 30), pl("S15", 2, 1, 40)],
-        ("C22", false) => vec![pl("S4", 3, 1, 40), pl("S5", 3, 2, 0), pl("S5b", 3, 2, 0), pl("S8", 3, 1, 0), pl("S9", 3, 1, 0), pl("S10", 4, 1, 0), pl("S13", 2, 2, 0), pl("S13b", 3, 2, 0)],
-        ("C22", true) => vec![pl("S4", 4, 1, 50), pl("S5", 5, 2, 30), pl("S5b", 5, 2, 30), pl("S8", 4, 1, 40), pl("S9", 4, 1, 40), pl("S10", 7, 1, 30), pl("S13", 3, 2, 40), pl("S13b", 5, 2, 30)],
+        ("C22", false) => vec![pl("S4", 3, 1, 40), pl("S5", 3, 2, 0), pl("S5b", 3, 2, 0), pl("S8", 3, 1, 0), pl("S9", 3, 1, 0), pl("S10", 4, 1, 0), pl("S13", 2, 2, 0), pl("S13b", 3, 2, 0), pl("S16", 3, 2, 0), pl("S16b", 3, 2, 0)],
+        ("C22", true) => vec![pl("S4", 4, 1, 50), pl("S5", 5, 2, 30), pl("S5b", 5, 2, 30), pl("S8", 4, 1, 40), pl("S9", 4, 1, 40), pl("S10", 7, 1, 30), pl("S13", 3, 2, 40), pl("S13b", 5, 2, 30), pl("S16", 5, 2, 30), pl("S16b", 5, 2, 30)],
         _ => vec![],
     }
 }
